@@ -1,6 +1,7 @@
 package main
 
 import (
+	"time"
 	"fmt"
 
 	"github.com/zmap/zcrypto/x509"
@@ -108,6 +109,7 @@ func genMonitor(out *Output, rng *Rng) {
 	}
 	out.Data["zoo_classes"] = zooClasses(certZoo())
 	runs := 0
+	hangs := 0
 	for ri, r := range regs {
 		cn, ln, on, metas := kindNames(r)
 		for ci, cc := range certs {
@@ -116,11 +118,30 @@ func genMonitor(out *Output, rng *Rng) {
 			}
 			var rs *zlint.ResultSet
 			var pv interface{}
+			hung := false
 			func() {
-				defer func() { pv = recover() }()
-				rs = zlint.LintCertificateEx(cc.Cert, r)
+				// "returns normally": within a generous time limit (a lint that loops for ever never returns at all)
+				done := make(chan struct{})
+				go func() {
+					defer close(done)
+					defer func() { pv = recover() }()
+					rs = zlint.LintCertificateEx(cc.Cert, r)
+				}()
+				select {
+				case <-done:
+				case <-time.After(20 * time.Second):
+					hung = true
+				}
 			}()
 			runs++
+			if hung {
+				out.Violate("C01|does-not-return:cert", fmt.Sprintf("LintCertificateEx did not return within 20 s on %s", cc.File), map[string]interface{}{"file": cc.File, "der": hexs(cc.DER)}, "a result set", "no return")
+				hangs++
+				if hangs >= 2 {
+					break
+				}
+				continue
+			}
 			if pv != nil {
 				out.Violate("C01|panic-escaped:cert:"+cc.File, fmt.Sprintf("LintCertificateEx panicked: %v", pv), map[string]interface{}{"file": cc.File, "der": hexs(cc.DER)}, nil, nil)
 				continue
